@@ -493,3 +493,172 @@ func (g *schemaGuards) orderRule(inherits *core.FuncInfo, byName map[string]*typ
 		"after the flags are copied from the $ref target only the simple-schema recomputation runs ("+strings.Join(late, ", ")+")",
 		"after the flags are copied from the $ref target, "+strings.Join(lateNonSimple, "; ")+" (or the simple-schema recomputation is missing): a $ref no longer classifies like its target, and flag-guarded dereferences run on copied flags")
 }
+
+func init() {
+	register(Rule{
+		Name:  "GUARD-DOCRULES",
+		Props: []string{"C20", "C03"},
+		Doc:   "the documented complexity rules hold for the flags' defining expressions: objects with properties, allOf compositions and tuples are complex; primitives, arrays, maps and empty objects are not (truth-table evaluation on characteristic valuations)",
+		Run:   guardDocRules,
+	})
+}
+
+type docRule struct {
+	name    string
+	trues   []string // regular-expression-free patterns: canonical atom must contain all space-separated parts
+	complex bool
+}
+
+// characteristic schemas, as the set of atoms that are true (every other atom of the defining expressions is false)
+var docRules = []docRule{
+	{"empty object", nil, false},
+	{"object with properties", []string{"len($.schema.Properties)"}, true},
+	{"object with properties and additionalProperties", []string{"len($.schema.Properties)", "$.schema.AdditionalProperties != nil", "$.schema.AdditionalProperties.Allows"}, true},
+	{"allOf composition", []string{"len($.schema.AllOf)"}, true},
+	{"allOf composition with additionalProperties", []string{"len($.schema.AllOf)", "$.schema.AdditionalProperties != nil", "$.schema.AdditionalProperties.Allows"}, true},
+	{"allOf composition with additionalProperties schema", []string{"len($.schema.AllOf)", "$.schema.AdditionalProperties != nil", "$.schema.AdditionalProperties.Schema != nil"}, true},
+	{"map (additionalProperties: true)", []string{"$.schema.AdditionalProperties != nil", "$.schema.AdditionalProperties.Allows"}, false},
+	{"map of schemas", []string{"$.schema.AdditionalProperties != nil", "$.schema.AdditionalProperties.Schema != nil"}, false},
+	{"string", []string{"$.schema.Type != nil", `$.schema.Type.Contains("string")`}, false},
+	{"integer", []string{"$.schema.Type != nil", `$.schema.Type.Contains("integer")`}, false},
+	{"array of schemas", []string{"$.schema.Type != nil", `$.schema.Type.Contains("array")`, "$.schema.Items != nil", "$.schema.Items.Schema != nil"}, false},
+	{"array without items", []string{"$.schema.Type != nil", `$.schema.Type.Contains("array")`}, false},
+	{"tuple", []string{"$.schema.Type != nil", `$.schema.Type.Contains("array")`, "$.schema.Items != nil", "$.schema.Items.Schemas != nil", "len($.schema.Items.Schemas)"}, true},
+	{"tuple with additionalItems", []string{"$.schema.Type != nil", `$.schema.Type.Contains("array")`, "$.schema.Items != nil", "$.schema.Items.Schemas != nil", "len($.schema.Items.Schemas)", "$.schema.AdditionalItems != nil", "$.schema.AdditionalItems.Allows"}, true},
+}
+
+func guardDocRules(c *Ctx) {
+	o := c.P.Pkg("").Types.Scope().Lookup("AnalyzedSchema")
+	cx := c.root("AnalyzedSchema.isAnalyzedAsComplex")
+	if o == nil || cx == nil || len(cx.Decl.Body.List) != 1 {
+		c.S.Undecided("C20", "GUARD-DOCRULES", "anchor", "-", "AnalyzedSchema / isAnalyzedAsComplex not found in the expected form")
+		return
+	}
+	ret, ok := cx.Decl.Body.List[0].(*ast.ReturnStmt)
+	if !ok || len(ret.Results) != 1 {
+		c.S.Undecided("C20", "GUARD-DOCRULES", "anchor", "-", "isAnalyzedAsComplex is not a single-return predicate")
+		return
+	}
+	named := o.Type().(*types.Named)
+	st := named.Underlying().(*types.Struct)
+	g := &schemaGuards{c: c, st: st, named: named, defs: map[*types.Var][]flagDef{}, copies: map[*types.Var]bool{}}
+	byName := map[string]*types.Var{}
+	for i := 0; i < st.NumFields(); i++ {
+		if core.IsBool(st.Field(i).Type()) {
+			byName[st.Field(i).Name()] = st.Field(i)
+		}
+	}
+	for _, fi := range c.P.SortedFuncs() {
+		if fi.Pkg.PkgPath != core.ModPath {
+			continue
+		}
+		info := c.info(fi)
+		ast.Inspect(fi.Decl.Body, func(n ast.Node) bool {
+			as, ok := n.(*ast.AssignStmt)
+			if !ok || len(as.Lhs) != len(as.Rhs) {
+				return true
+			}
+			for i, l := range as.Lhs {
+				sel, ok := core.Unparen(l).(*ast.SelectorExpr)
+				if !ok {
+					continue
+				}
+				fv := core.FieldOf(info, sel)
+				if fv == nil || byName[fv.Name()] != fv {
+					continue
+				}
+				if rs, ok := core.Unparen(as.Rhs[i]).(*ast.SelectorExpr); ok && core.FieldOf(info, rs) == fv {
+					continue
+				}
+				g.defs[fv] = append(g.defs[fv], flagDef{fi: fi, as: as, rhs: as.Rhs[i], recv: exprStr(sel.X), conds: c.conds(fi, as)})
+			}
+			return true
+		})
+	}
+	recv := cx.Decl.Recv.List[0].Names[0].Name
+	f := g.exprFormula(cx, ret.Results[0], recv, 0)
+	if f == nil {
+		c.S.Undecided("C20", "GUARD-DOCRULES", "formula", "-", "cannot abstract isAnalyzedAsComplex")
+		return
+	}
+	// axioms from GUARD-FLAGIMPL: a multi-definition flag implies its base flag
+	axioms := map[string]*pf{}
+	for _, pr := range [][2]string{{"IsSimpleArray", "IsArray"}, {"IsSimpleMap", "IsMap"}} {
+		if bf := g.formulaOf(byName[pr[1]]); bf != nil {
+			axioms["flag "+pr[0]] = bf
+		}
+	}
+	atoms := map[string]bool{}
+	f.atoms(atoms)
+	for _, a := range axioms {
+		a.atoms(atoms)
+	}
+	var names, flagAtoms []string
+	for a := range atoms {
+		if strings.HasPrefix(a, "flag ") {
+			flagAtoms = append(flagAtoms, a)
+		} else {
+			names = append(names, a)
+		}
+	}
+	sort.Strings(names)
+	sort.Strings(flagAtoms)
+	if len(flagAtoms) > 6 {
+		c.S.Undecided("C20", "GUARD-DOCRULES", "formula", "-", "too many unexpanded flags")
+		return
+	}
+	decided := 0
+	for _, r := range docRules {
+		env := map[string]bool{}
+		missing := ""
+		for _, want := range r.trues {
+			found := false
+			for _, a := range names {
+				if a == want || strings.HasPrefix(a, want+" >") || strings.HasPrefix(a, want+" !=") {
+					// "len(x) > 0", "len(x) >= 1", "len(x) != 0" all say non-empty
+					env[a] = true
+					found = true
+				}
+			}
+			if !found {
+				missing = want
+			}
+		}
+		if missing != "" {
+			c.S.Note("GUARD-DOCRULES: rule %q skipped, no atom for %s in the defining expressions", r.name, missing)
+			continue
+		}
+		decided++
+		okAll := true
+		for m := 0; m < 1<<len(flagAtoms); m++ {
+			e2 := map[string]bool{}
+			for k, v := range env {
+				e2[k] = v
+			}
+			consistent := true
+			for i, fa := range flagAtoms {
+				e2[fa] = m&(1<<i) != 0
+			}
+			for fa, base := range axioms {
+				if e2[fa] && !base.eval(e2) {
+					consistent = false
+				}
+			}
+			if !consistent {
+				continue
+			}
+			if f.eval(e2) != r.complex {
+				okAll = false
+			}
+		}
+		word := map[bool]string{true: "complex", false: "not complex"}
+		for _, prop := range []string{"C20", "C03"} {
+			c.S.Decide(okAll, prop, "GUARD-DOCRULES", r.name, c.P.Pos(cx.Decl.Pos()),
+				"classified as "+word[r.complex]+" by the flags' defining expressions",
+				"a schema that is "+r.name+" is classified as "+word[!r.complex]+" by the flags' defining expressions (documented: "+word[r.complex]+")")
+		}
+	}
+	if decided < 8 {
+		c.S.Undecided("C20", "GUARD-DOCRULES", "floor", "-", fmt.Sprintf("only %d of %d documented rules could be matched to atoms of the defining expressions", decided, len(docRules)))
+	}
+}
